@@ -74,7 +74,7 @@ def gen_svg(spec):
                 % (gid, x, y, x + sz, y + sz, c, cols[(s + i + 3) % len(cols)], x, y, sz, sz, gid)
             )
         elif kind == "shared":  # the same shape translated: exercises reuse
-            body.append('<path d="M%g,%g l%g,0 l0,%g l-%g,0 z" fill="%s"/>' % (vb[0] + 5 + 22 * i, vb[1] + 5 + 11 * i, 15.0, 15.0, 15.0, c))
+            body.append('<path d="M%g,%g l%g,0 l0,%g l-%g,0 z" fill="%s"%s/>' % (vb[0] + 5 + 22 * i, vb[1] + 5 + 11 * i, 15.0, 15.0, 15.0, c, op))
     return '<svg xmlns="http://www.w3.org/2000/svg" viewBox="%g %g %g %g">\n%s\n</svg>\n' % (
         vb[0], vb[1], vb[2], vb[3], "\n".join(body),
     )
